@@ -334,6 +334,19 @@ def c08_d(ctx: Ctx):
                                 "`finally`): after a refused assignment (DestinationExistsError) self.id is still the old id, so the cache maps the old id to a state point that does not "
                                 "hash to it, open_job(id=old) serves it and update_cache() persists it", construct=st.qual + "|register-after-failed-rekey"))
             continue
+        # the id under which the state point is registered is read after the re-key
+        stale = None
+        for c in [x for x in walk_no_nested(rg.ast) if isinstance(x, ast.Call) and isinstance(x.func, ast.Attribute) and x.func.attr == "_register" and x.args]:
+            a0 = c.args[0]
+            if isinstance(a0, ast.Name):
+                defs = [n for n in scfg.stmt_nodes() if isinstance(n.ast, ast.Assign) and any(isinstance(t, ast.Name) and t.id == a0.id for t in n.ast.targets)]
+                for d in defs:
+                    if any(r in scfg.reachable([d.id], kinds="n") for r in resets) and "id" in canon(d.ast.value):
+                        stale = (d, a0.id)
+        if stale:
+            out.append(ctx.viol(R, st, rg.ast, f"the state point is registered under `{stale[1]}`, which was read (`{stmt_key(stale[0].ast, 40)}`) before the re-key: the cache maps the *old* id to the "
+                                "new state point, open_job(id=old) in the same session hands out a job whose id is not the hash of its state point", construct=st.qual + "|register-id-fresh"))
+            continue
         w = scfg.must_pass_before(rg.id, resets, kinds="n")
         if w is None and resets:
             out.append(ctx.ok(R, st, rg.ast, "the new state point is registered under self.id only after the re-key changed the id"))
@@ -377,4 +390,76 @@ def c08_f(ctx: Ctx):
     return per_item_loops(ctx, "C08-f", [('signac.project:Project._update_in_memory_cache', 'an id is cached with the state point read for another id'), ('signac.project:Project.update_cache', "the persistent cache receives another job's data"), ('signac.project:Project._read_cache', 'cache content of another read is reused')])
 
 
-RULES = [c08_a, c08_b, c08_c, c08_d, c08_e, c08_f]
+@rule("C08-g")
+def c08_g(ctx: Ctx):
+    """Every entry made into the state point cache pairs an id with the state point that hashes to it: the value is the state point just assigned or just read
+    and validated for that id (never a lazily filled field that may still be None), and in a function that changes an id the entry is made after the change."""
+    R = "C08-g"
+    out = []
+    n_sites = 0
+    for g in ctx.prog.funcs.values():
+        if g.module.is_dep or not g.module.name.startswith("signac"):
+            continue
+        calls = [c for c in body_nodes(g) if isinstance(c, ast.Call) and isinstance(c.func, ast.Attribute) and c.func.attr == "_register" and len(c.args) >= 2]
+        if not calls:
+            continue
+        cfg = ctx.cfg(g)
+        idw = {n.id for n in cfg.stmt_nodes() if isinstance(n.ast, ast.Assign) and any(isinstance(t, ast.Attribute) and t.attr == "_id" for t in n.ast.targets)}
+        for c in calls:
+            n_sites += 1
+            k = f"{g.qual}|register|{canon(c.args[1])[:30]}"
+            v = c.args[1]
+            src = None
+            if isinstance(v, ast.Name) and v.id in g.params:
+                src = "the value passed in"
+            elif isinstance(v, ast.Name):
+                d = common.reaching_defs(ctx, g, v.id, c)
+                calls_d = [x for x in d if isinstance(x, ast.Call)]
+                if d and len(calls_d) == len(d) and all(any(q.endswith((".load", "_get_statepoint_from_workspace", "_get_statepoint", "Job.statepoint", "_StatePointDict.__call__", "_to_base"))
+                                                            or "statepoint" in canon(x.func) for q in (common.targets_of(ctx, g, x) or [canon(x.func)])) for x in calls_d):
+                    src = "a state point just read for that id"
+            if isinstance(v, ast.Attribute) and v.attr in ("_cached_statepoint",):
+                out.append(ctx.viol(R, g, c, f"the cache entry is filled from `{canon(v)}`, a lazily filled field that is still None for a handle obtained by id / iteration that was never read: "
+                                    "None is registered for an existing job, find_jobs drops it and update_cache() persists `null`", construct=k))
+                continue
+            if src is None:
+                out.append(ctx.inc(R, g, c, f"origin of the registered state point `{canon(v)[:40]}` not recognised", construct=k))
+                continue
+            # freshness of the id in functions that change an id
+            a0 = canon(c.args[0])
+            if idw and ("id" in a0):
+                st = ctx.stmt_of(g, c)
+                bad = None
+                for nid in cfg.node_ids_for(st):
+                    bad = bad or cfg.must_pass_before(nid, idw, kinds="n")
+                if bad is not None:
+                    out.append(ctx.viol(R, g, c, f"`{canon(c)[:60]}` runs before the id of the handle is changed in {g.qual.split(':')[-1]}: the cache maps the old id to the new state point; when the "
+                                        "old state point re-appears (second handle, clone) find_jobs evaluates that job against another job's state point", construct=k,
+                                        witness=cfg.describe_path(bad)))
+                    continue
+            out.append(ctx.ok(R, g, c, f"registers {src} under {a0}", construct=k))
+    if n_sites < 3:
+        out.append(ctx.inc(R, None, None, f"only {n_sites} _register call sites found (expected >= 3)", construct="register|count"))
+    return out
+
+
+@rule("C08-h")
+def c08_h(ctx: Ctx):
+    """`signac update-cache` reconciles unconditionally: every path through main_update_cache calls Project.update_cache() (no freshness heuristics in front of it)."""
+    R = "C08-h"
+    f = ctx.prog.funcs.get("signac.__main__:main_update_cache")
+    if f is None:
+        return [ctx.inc(R, None, None, "main_update_cache not found")]
+    cfg = ctx.cfg(f)
+    upd = {n.id for n in cfg.stmt_nodes() for sub in __import__("sigstat.cfg", fromlist=["own_exprs"]).own_exprs(n.ast) for c in walk_no_nested(sub)
+           if isinstance(c, ast.Call) and isinstance(c.func, ast.Attribute) and c.func.attr == "update_cache"}
+    if not upd:
+        return [ctx.viol(R, f, f.node, "`signac update-cache` never calls Project.update_cache()")]
+    w = cfg.path(cfg.entry, {cfg.exit}, blocked=upd, kinds="n")
+    if w is None:
+        return [ctx.ok(R, f, f.node, "every path through `signac update-cache` calls Project.update_cache()")]
+    return [ctx.viol(R, f, f.node, "`signac update-cache` can finish without calling Project.update_cache() (a short-cut in front of it): whatever the short-cut looks at (time stamps, sizes) "
+                     "is not the set of job directories, so a stale cache file is declared current", witness=cfg.describe_path(w))]
+
+
+RULES = [c08_a, c08_b, c08_c, c08_d, c08_e, c08_f, c08_g, c08_h]
